@@ -138,6 +138,212 @@ def build_grow():
     return "\n".join(out) + "\n"
 
 
+# --------------------------------------------------------------------------- pending-comparison stream
+# An engine that compiles to machine code may keep the result of a comparison only in the CPU flags until it is consumed.
+# Every instruction kind K must then either materialise a pending comparison before emitting flag-clobbering code (shape A:
+# `cmp; K...; return (cmp result, K result)`, the comparison result stays on the operand stack while K executes) or consume it
+# correctly as its top operand (shape B: `...; cmp; K`).  One function per (comparison, K, shape).
+PEND_ARGS = {}     # function name -> (list of comparison operand tuples, list of K operand tuples)  (filled by build())
+
+_WT_BITS = {"i32": 32, "i64": 64, "f32": 32, "f64": 64}
+
+
+def _numeric_sig(instr):
+    """(operand wasm types, result wasm type) of a numeric / conversion instruction of the catalogue"""
+    t, op = instr.split(".", 1)
+    if op in IBIN or op in FBIN:
+        return [t, t], t
+    if op in IREL or op in FREL:
+        return [t, t], "i32"
+    if op in IUN or op in FUN:
+        return [t], t
+    if op == "eqz":
+        return [t], "i32"
+    src = {"wrap_i64": "i64", "extend_i32_s": "i32", "extend_i32_u": "i32", "demote_f64": "f64", "promote_f32": "f32"}.get(op)
+    if src is None:
+        src = op.split("_")[1]                     # trunc_f32_s, convert_i64_u, reinterpret_f32
+    return [src], t
+
+
+def _numeric_catalogue():
+    c = []
+    for t in ("i32", "i64"):
+        c += ["%s.%s" % (t, k) for k in IBIN + IREL + IUN + ["eqz"]]
+    c += ["i32.wrap_i64", "i64.extend_i32_s", "i64.extend_i32_u"]
+    for t in ("f32", "f64"):
+        c += ["%s.%s" % (t, k) for k in FBIN + FREL + FUN]
+    for it in ("i32", "i64"):
+        for ft in ("f32", "f64"):
+            for sg in ("s", "u"):
+                c += ["%s.trunc_%s_%s" % (it, ft, sg), "%s.convert_%s_%s" % (ft, it, sg)]
+    c += ["f32.demote_f64", "f64.promote_f32", "i32.reinterpret_f32", "i64.reinterpret_f64", "f32.reinterpret_i32", "f64.reinterpret_i64"]
+    return c
+
+
+_KVAL = {   # operand values per wasm type: (first, second) in the default set and in the alternative sets (thorough tier)
+    "i32": [(0x12345, 3), (0xffffffff, 0x1f), (0x80000000, 0xffffffff)],
+    "i64": [(0x123456789, 3), (0xffffffffffffffff, 0x3f), (0x8000000000000000, 0xffffffffffffffff)],
+    "f32": [(0x40200000, 0x3f400000), (0x80000000, 0x7f800000), (0x7fc00000, 0x4f000000)],
+    "f64": [(0x4004000000000000, 0x3fe8000000000000), (0x8000000000000000, 0x7ff0000000000000), (0x7ff8000000000000, 0x41e0000000000000)],
+}
+
+
+def _pending(out, funcs):
+    out.append("(func $k77 (result i32)\n  i32.const 77\n)\n")
+    out.append("(func $add2 (param i32) (param i32) (result i32)\n  local.get 0\n  i32.const 3\n  i32.mul\n  local.get 1\n  i32.add\n)\n")
+    car = {"i32": "i32", "i64": "i64", "f32": "i32", "f64": "i64"}
+    ones = {"i32": 0xffffffff, "i64": 0xffffffffffffffff}
+    # ---- comparison families: (name, carrier param types, tokens, operand cases)
+    cmps = []
+    for t in ("i32", "i64"):
+        cases = [(5, 5), (5, 7), (7, 5), (ones[t], 1)]
+        for k in IREL:
+            cmps.append(("%s.%s" % (t, k), [t, t], ["local.get 0", "local.get 1", "%s.%s" % (t, k)], cases))
+        cmps.append(("%s.eqz" % t, [t], ["local.get 0", "%s.eqz" % t], [(0,), (5,)]))
+    for t, one, two, nan in (("f32", 0x3f800000, 0x40000000, 0x7fc00000), ("f64", 0x3ff0000000000000, 0x4000000000000000, 0x7ff8000000000000)):
+        r = "%s.reinterpret_%s" % (t, car[t])
+        cases = [(one, one), (one, two), (two, one), (nan, one)]
+        for k in FREL:
+            cmps.append(("%s.%s" % (t, k), [car[t], car[t]], ["local.get 0", r, "local.get 1", r, "%s.%s" % (t, k)], cases))
+
+    def push(idx, t):
+        return ["local.get %d" % idx] + ({"f32": ["f32.reinterpret_i32"], "f64": ["f64.reinterpret_i64"]}.get(t, []))
+
+    def back(t):
+        return {"f32": ["i32.reinterpret_f32"], "f64": ["i64.reinterpret_f64"]}.get(t, [])
+
+    def kvals(types):
+        """operand tuples for K parameters of the given wasm types: position j takes the (j mod 2)-th value of each set"""
+        return [tuple(_KVAL[t][s][j % 2] for j, t in enumerate(types)) for s in range(3)]
+
+    # ---- K kinds.  Each entry: (kname, shape, K param wasm types, extra locals (wasm types), pre, before, after, result wasm type | None,
+    #                             memory line?, K operand cases | None (= kvals), late?)
+    #   pre    : tokens before the comparison (b = index of the first K parameter, l = index of the first extra local)
+    #   before : tokens between `pre` and the comparison that push operands UNDER the comparison result (shape B)
+    #   after  : tokens after the comparison
+    K = []
+
+    def kadd(kname, shape, ktypes, after, res, locs=(), pre=(), before=(), mem=False, cases=None, late=False):
+        K.append((kname, shape, list(ktypes), list(locs), list(pre), list(before), list(after), res, mem, cases, late))
+
+    P = "{b%d}"          # placeholder for "index of K parameter d"
+    LC = "{l%d}"         # placeholder for "index of extra local d"
+
+    def pk(j, t):
+        return ["local.get " + P % j] + ({"f32": ["f32.reinterpret_i32"], "f64": ["f64.reinterpret_i64"]}.get(t, []))
+
+    for ins in _numeric_catalogue():
+        ots, rt = _numeric_sig(ins)
+        a = []
+        for j, t in enumerate(ots):
+            a += pk(j, t)
+        kadd(ins, "A", ots, a + [ins] + back(rt), rt)
+        if ots[-1] == "i32":                        # the comparison result is K's top operand
+            bf = []
+            for j, t in enumerate(ots[:-1]):
+                bf += pk(j, t)
+            kadd(ins, "B", ots[:-1], [ins] + back(rt), rt, before=bf)
+    for m, c, n in LOADS:
+        vt = m.split(".")[0]
+        kadd(m, "A", ["i32"], pk(0, "i32") + [m + " offset=0"] + back(vt), vt, mem=True, cases=[(16,), (65535,), (0xfffffffc,)])
+        kadd(m, "B", [], [m + " offset=3"] + back(vt), vt, mem=True, cases=[()])
+    for m, c, n in STORES:
+        vt = m.split(".")[0]
+        kadd(m, "A", ["i32", vt], pk(0, "i32") + pk(1, vt) + [m + " offset=0"], None, mem=True,
+             cases=[(16, _KVAL[vt][1][0]), (65535, _KVAL[vt][0][0]), (0xfffffffc, 1)])
+        if vt == "i32":
+            kadd(m, "B", ["i32"], [m + " offset=5"], None, before=pk(0, "i32"), mem=True, cases=[(16,), (65533,)])
+    kadd("memory.size", "A", [], ["memory.size"], "i32", cases=[()])
+    kadd("memory.grow", "A", ["i32"], pk(0, "i32") + ["memory.grow"], "i32", cases=[(0,), (0x10000,), (0xffff0000,)])
+    kadd("memory.grow", "B", [], ["memory.grow"], "i32", cases=[()], late=True)       # grows by the comparison result: run last
+    kadd("memory.fill", "A", ["i32", "i32", "i32"], pk(0, "i32") + pk(1, "i32") + pk(2, "i32") + ["memory.fill"], None, mem=True,
+         cases=[(8, 0xab, 40), (65530, 1, 7), (0, 0x7f, 0)])
+    kadd("memory.fill", "B", ["i32", "i32"], ["memory.fill"], None, before=pk(0, "i32") + pk(1, "i32"), mem=True, cases=[(9, 0xcd), (65535, 0xef), (65536, 1)])
+    kadd("memory.copy", "A", ["i32", "i32", "i32"], pk(0, "i32") + pk(1, "i32") + pk(2, "i32") + ["memory.copy"], None, mem=True,
+         cases=[(8, 100, 40), (100, 90, 30), (65530, 0, 7)])
+    kadd("memory.copy", "B", ["i32", "i32"], ["memory.copy"], None, before=pk(0, "i32") + pk(1, "i32"), mem=True, cases=[(9, 200), (65535, 3), (65536, 0)])
+    kadd("nop", "A", [], ["nop"], None, cases=[()])
+    for t, lit in (("i32", "7"), ("i32", "0"), ("i64", "7"), ("i64", "0"), ("f32", "1.5"), ("f64", "1.5")):
+        kadd("%s.const(%s)" % (t, lit), "A", [], ["%s.const %s" % (t, lit)] + back(t), t, cases=[()])
+    for t in ("i32", "i64", "f32", "f64"):
+        setl = pk(0, t) + ["local.set " + LC % 0]
+        kadd("local.get(%s)" % t, "A", [t], ["local.get " + LC % 0] + back(t), t, locs=[t], pre=setl)
+        kadd("local.set(%s)" % t, "A", [t], pk(0, t) + ["local.set " + LC % 0, "local.get " + LC % 0] + back(t), t, locs=[t])
+        kadd("local.tee(%s)" % t, "A", [t], pk(0, t) + ["local.tee " + LC % 0] + back(t), t, locs=[t])
+        kadd("global.get(%s)" % t, "A", [], ["global.get $g_%s" % t] + back(t), t, cases=[()])
+        kadd("global.set(%s)" % t, "A", [t], pk(0, t) + ["global.set $g_%s" % t, "global.get $g_%s" % t] + back(t), t)
+        kadd("select(%s)" % t, "A", [t, t, "i32"], pk(0, t) + pk(1, t) + pk(2, "i32") + ["select"] + back(t), t,
+             cases=[v[:2] + (c,) for v in kvals([t, t]) for c in (0, 1)][:4])
+        kadd("select(%s)" % t, "B", [t, t], ["select"] + back(t), t, before=pk(0, t) + pk(1, t))
+    kadd("local.set(i32)", "B", [], ["local.set " + LC % 0, "local.get " + LC % 0], "i32", locs=["i32"], cases=[()])
+    kadd("local.tee(i32)", "B", [], ["local.tee " + LC % 0, "local.get " + LC % 0, "i32.add"], "i32", locs=["i32"], cases=[()])
+    kadd("global.set(i32)", "B", [], ["global.set $g_i32", "global.get $g_i32"], "i32", cases=[()])
+    kadd("select-value", "A", ["i32", "i32"], pk(0, "i32") + pk(1, "i32") + ["select"], None, cases=[(9, 0), (9, 1)])   # the result is a select operand
+    kadd("drop", "A", ["i32"], pk(0, "i32") + ["drop"], None, cases=[(9,)])
+    kadd("drop", "B", ["i32"], ["drop"], "i32", before=pk(0, "i32"), cases=[(9,)])            # returns the value under the dropped comparison
+    kadd("return", "B", [], ["return"], "i32", cases=[()])
+    kadd("call0", "A", [], ["call $k77"], "i32", cases=[()])
+    kadd("call1", "A", ["i32"], pk(0, "i32") + ["call $inc"], "i32")
+    kadd("call1", "B", [], ["call $inc"], "i32", cases=[()])
+    kadd("call2", "B", ["i32"], ["call $add2"], "i32", before=pk(0, "i32"))
+    kadd("call_indirect", "A", ["i32", "i32"], pk(0, "i32") + pk(1, "i32") + ["call_indirect (type $t_i_i)"], "i32", cases=[(5, 1), (5, 2), (5, 0)])
+    kadd("call_indirect", "B", ["i32"], ["call_indirect (type $t_i_i)"], "i32", before=pk(0, "i32"), cases=[(5,), (0xffffffff,)])
+    kadd("block", "A", ["i32"], ["block"] + pk(0, "i32") + ["drop", "end"], None, cases=[(9,)])
+    kadd("block-result", "A", ["i32"], ["block (result i32)"] + pk(0, "i32") + ["end"], "i32", cases=[(9,)])
+    kadd("loop", "A", ["i32"], ["loop"] + pk(0, "i32") + ["drop", "end"], None, cases=[(9,)])
+    kadd("loop-counted", "A", ["i32"], pk(0, "i32") + ["local.set " + LC % 0, "loop", "local.get " + LC % 0, "i32.const 1", "i32.sub",
+                                                       "local.tee " + LC % 0, "br_if 0", "end", "local.get " + LC % 0], "i32",
+         locs=["i32"], cases=[(3,), (1,)])
+    kadd("if", "A", ["i32"], pk(0, "i32") + ["if (result i32)", "i32.const 40", "else", "i32.const 50", "end"], "i32", cases=[(0,), (2,)])
+    kadd("if", "B", [], ["if (result i32)", "i32.const 40", "else", "i32.const 50", "end"], "i32", cases=[()])
+    kadd("if-no-else", "B", ["i32"], ["if", "i32.const 60", "local.set " + P % 0, "end", "local.get " + P % 0], "i32", cases=[(9,)])
+    kadd("br", "B", [], ["block (result i32)", "{cmp}", "br 0", "end"], "i32", cases=[()])            # the branch carries the comparison result
+    kadd("br-carry", "A", [], ["br 0"], None, cases=[()])
+    kadd("br_if", "A", ["i32"], pk(0, "i32") + ["br_if 0", "i32.const 1000", "i32.add"], None, cases=[(0,), (1,)])   # the branch carries the comparison result
+    kadd("br_if", "B", ["i32"], ["br_if 0", "i32.const 1000", "i32.add"], "i32", before=pk(0, "i32"), cases=[(9,)])
+    kadd("br_table", "A", ["i32"], ["block (result i32)", "block (result i32)"] + ["{cmp}"] + pk(0, "i32") + ["br_table 0 1 1", "end", "i32.const 1000", "i32.add", "end"],
+         None, cases=[(0,), (1,), (7,)])
+    kadd("br_table", "B", [], ["block", "block", "block", "{cmp}", "br_table 0 1 2", "end", "i32.const 100", "return", "end", "i32.const 101", "return", "end",
+                               "i32.const 199"], "i32", cases=[()])
+    kadd("unreachable-after", "A", ["i32"], pk(0, "i32") + ["if", "unreachable", "end"], None, cases=[(0,), (1,)])
+
+    for cname, cpts, ctoks, ccases in cmps:
+        nb = len(cpts)
+        for kname, shape, ktypes, locs, pre, before, after, res, mem, kcases, late in K:
+            nl = nb + len(ktypes)
+
+            def fix(toks):
+                o = []
+                for tk in toks:
+                    for j in range(len(ktypes)):
+                        tk = tk.replace("{b%d}" % j, str(nb + j))
+                    for j in range(len(locs)):
+                        tk = tk.replace("{l%d}" % j, str(nl + j))
+                    o.append(tk)
+                return o
+            aft = fix(after)
+            if "{cmp}" in aft:                     # the comparison sits inside the K construct
+                i = aft.index("{cmp}")
+                body = fix(pre) + fix(before) + aft[:i] + ctoks + aft[i + 1:]
+            else:
+                body = fix(pre) + fix(before) + ctoks + aft
+            if shape == "A":
+                rts = ["i32"] + ([car[res]] if res else [])
+            else:
+                rts = [car[res]] if res else []
+            name = "%s:%s|%s" % ("p" if shape == "A" else "q", cname, kname)
+            _func.n += 1
+            ptypes = cpts + [car[t] for t in ktypes]
+            ldecl = "".join("\n  (local %s)" % t for t in locs)
+            ps = "".join(" (param %s)" % t for t in ptypes)
+            rs = (" (result %s)" % " ".join(rts)) if rts else ""
+            out.append('(func $f%d (export "%s")%s%s%s\n  %s\n)\n' % (_func.n, name, ps, rs, ldecl, "\n  ".join(body)))
+            sig = "%s:%s" % ("".join("i" if t == "i32" else "I" for t in ptypes), "".join("i" if t == "i32" else "I" for t in rts))
+            cls = ("mpend" if mem else "pend") + ("-late" if late else "")
+            funcs[name] = F(sig, cls, kname + ("@A" if shape == "A" else "@B"), 0, (not locs) and (not late) and lean_ok(body), body)
+            PEND_ARGS[name] = (ccases, kcases if kcases is not None else kvals(ktypes))
+
+
 def build():
     """-> (wat text, OrderedDict name -> F)"""
     out = ["(module $c31_instmod"]
@@ -146,6 +352,10 @@ def build():
     out.append("(table 8 funcref)")
     out.append("(type $t_i_i (func (param i32) (result i32)))")
     out.append("(type $t_I_I (func (param i64) (result i64)))")
+    out.append("(global $g_i32 (mut i32) (i32.const 11))")
+    out.append("(global $g_i64 (mut i64) (i64.const 12))")
+    out.append("(global $g_f32 (mut f32) (f32.const 1.5))")
+    out.append("(global $g_f64 (mut f64) (f64.const 2.5))")
     funcs = collections.OrderedDict()
     _func.n = 0
 
@@ -274,6 +484,7 @@ def build():
     out.append('(func $rec (export "rec") (param i32) (result i32)\n  local.get 0\n  i32.eqz\n  if (result i32)\n    i32.const 7\n  else\n'
                '    local.get 0\n    i32.const 1\n    i32.sub\n    call $rec\n    i32.const 1\n    i32.add\n  end\n)\n')
     funcs["rec"] = F("i:i", "rec", "call", 0, False, [])
+    _pending(out, funcs)
     out.append(")")
     return "\n".join(out) + "\n", funcs
 
@@ -516,6 +727,17 @@ def ops(funcs, rng, tier):
                 L.append("c %s %s %s" % (name, f.sig, hx(d)))
             if big:
                 L.append("c %s %s %s" % (name, f.sig, hx(0xffffffff)))      # exhausts the call stack (10-50 s on the compiler engine)
+    # pending-comparison stream: every comparison outcome x (quick: the first, thorough: every) K operand set
+    late = []
+    for name, f in funcs.items():
+        if not f.cls.startswith(("pend", "mpend")):
+            continue
+        ccases, kcases = PEND_ARGS[name]
+        tag = "m" if f.cls.startswith("mpend") else "c"
+        for ci, cc in enumerate(ccases):
+            ks = kcases if big else [kcases[ci % len(kcases)]]
+            for kc in ks:
+                (late if f.cls.endswith("-late") else L).append("%s %s %s %s" % (tag, name, f.sig, hx(*(tuple(cc) + tuple(kc)))))
     # memory.grow sequences (each on a fresh instance)
     seqs = [[0], [1], [3], [4], [1, 1, 1, 1], [2, 2], [0, 3, 0, 1], [65535], [65536], [0x7fffffff], [0xffffffff], [1, 0xffffffff, 2, 1],
             [3, 0, 1], [2, 1, 1]]
@@ -523,7 +745,7 @@ def ops(funcs, rng, tier):
         seqs.append([rng.choice([0, 1, 2, 3, 4, 5, 65536, 0xffffffff]) for _ in range(rng.randrange(1, 5))])
     for s in seqs:
         L.append("g " + hx(*s))
-    return L
+    return L + late        # `late` lines change the size of the shared instance's memory: nothing that needs one page may follow
 
 
 if __name__ == "__main__":
